@@ -127,10 +127,10 @@ int main(int argc, char **argv)
 {
   Args args(argc, argv);
   bool thorough = args.thorough();
-  int L = thorough ? 10 : 7;
-  int maxn = thorough ? 4 : 3;
+  int L = thorough ? 12 : 8;
+  int maxn = thorough ? 5 : 4;
   int maxk = thorough ? 4 : 3;
-  int nstart = thorough ? 6 : 4;
+  int nstart = thorough ? 7 : 5;
 
   // grid of force-scaling factors for bias "hs" (multicolumn format: 12 bins of width 0.5 on [0,6])
   {
